@@ -303,6 +303,17 @@ def parse_direct(m):
 def parse_play(m, lib_hint=None):
     out = {"params": m["params"], "async": m["async"], "shape": None, "generics": m["generics"]}
     b = m["body"]
+    # optional drain guard of the async-channel runtimes: a local Drop type holding a clone of the receiver that closes the
+    # channel and discards the buffered messages when play ends (normally, by `return`, or by unwinding)
+    drain = None
+    for rpath, lib in (("async_std :: channel :: Receiver", "async_std"), ("async_channel :: Receiver", "smol")):
+        g = match(b, "struct InterDrain < T > ( " + rpath + " < T > ) ; impl < T > :: std :: ops :: Drop for InterDrain < T > "
+                     "{ fn drop ( & mut self ) { self . 0 . close ( ) ; while self . 0 . try_recv ( ) . is_ok ( ) { } } } "
+                     "let _inter_drain = InterDrain ( $rx:ident . clone ( ) ) ; $tail:rest")
+        if g is not None:
+            drain = {"rx": g["rx"].s, "lib": lib}
+            b = g["tail"]
+            break
     e = None
     okpat = None
     for pat in (":: std :: result :: Result :: Ok", ":: std :: option :: Option :: Some", "Ok", "Some"):
@@ -360,7 +371,7 @@ def parse_play(m, lib_hint=None):
         out["shape"] = U(b)
         return out
     out["shape"] = {"pat": okpat, "msg": msg, "rx": e["rx"].s, "recv": recvk, "await": await_, "stop": stop,
-                    "disp_on": d["m"].s, "disp_arg": darg, "disp_mut": dmut, "disp_await": daw}
+                    "disp_on": d["m"].s, "disp_arg": darg, "disp_mut": dmut, "disp_await": daw, "drain": drain}
     return out
 
 
